@@ -149,6 +149,12 @@ func runC02(p *P, r *R) {
 		r.fail("R02.6", "anchor (*bufferManager).readBufferSlice", "", "function not found")
 	}
 
+	// R02.8 the free chain can only be walked and re-linked correctly if creator, mapper and accessors agree on the
+	// link/flag words, the stride and the per-class loop (shared with C03)
+	borrow(p, r, "C03", runC03, map[string]string{"R03.1": "R02.8", "R03.2": "R02.8", "R03.7": "R02.8"}, func(o Ob) bool {
+		return constructHas(o, "free-list header", "slot header", "(bufferHeader)", "stride", "initial tail", "countBufferListMemSize", "every size class", "advances to the next list")
+	})
+
 	// R02.7 the head CAS must not be ABA-prone: a stale popper's CAS detaches the rest of the chain (buffers lost)
 	abaRule(p, r, "R02.7")
 
